@@ -49,7 +49,9 @@ BOUNDS = {
              "2-d: all triangulations of the square [0,2]^2 with <= 2 extra points of {edge midpoints, centre} in the xy-plane, with <= 1 extra point "
              "for the stretched lattice (2->3) and the embeddings {plane normal (1,2,2), skew plane normal (1,-1,1)}; L-polygon with <= 1 extra point "
              "for (identity, xy), (identity, normal (1,2,2)), (stretched, skew)",
-    "thorough": "(both tiers: 1-d embeddings also {x-axis shifted to 1024 with cells 2^-7/6, (1,2,2) x 1024}; 2-d xy-plane also shifted to (1024,-2048) with "
+    "thorough": "(both tiers: arbitrary numbering: 1-d hand-built grids with every cell permutation x 3 node numberings of the first resp. second "
+                "tessellation (quick: <= 3 cells each, and 4-cell second grids against 2-cell first grids; thorough: <= 4 cells each), 2-d renumbered "
+                "triangle / node order for the square with <= 1 (thorough 2) extra points in the xy-plane; 1-d embeddings also {x-axis shifted to 1024 with cells 2^-7/6, (1,2,2) x 1024}; 2-d xy-plane also shifted to (1024,-2048) with "
                 "lattice spacing 2^-7 and magnified x 1024, tolerances relative to coordinate magnitude / cell size; four sharp embedded pairs) 1-d as quick; 2-d: square with <= 3 extra points, L-polygon with <= 2 extra points, both stretches x all three embeddings",
 }
 MIN_CLASSES = 6
@@ -166,6 +168,21 @@ def cases(tier):
         n = len(_tess_list(domain, stretch, mx))
         for a in range(n):
             out.append({"kind": "tri", "domain": domain, "stretch": stretch, "embed": e, "a": a, "max_extra": mx})
+    # arbitrary cell / node numbering (a pp.Grid numbers its cells and nodes arbitrarily)
+    masks = [m for m in range(2 ** (NL - 1)) if bin(m).count("1") <= 3]  # <= 4 cells
+    if tier == "thorough":
+        for a in masks:
+            out.append({"kind": "line_perm", "a": a, "bcells": [1, 2, 3, 4]})
+    else:
+        for a in masks:
+            nc = bin(a).count("1") + 1
+            if nc <= 3:
+                out.append({"kind": "line_perm", "a": a, "bcells": [1, 2, 3]})
+            if nc == 2:
+                out.append({"kind": "line_perm", "a": a, "bcells": [4]})
+    mx = 2 if tier == "thorough" else 1
+    for a in range(len(_tess_list("square", "id", mx))):
+        out.append({"kind": "tri_perm", "domain": "square", "stretch": "id", "embed": 0, "a": a, "max_extra": mx})
     return out
 
 
@@ -246,6 +263,105 @@ def _grid_1d(nodes_t, origin, direction, reverse):
     g.nodes = o[:, None] + np.outer(d, tt)
     g.compute_geometry()
     return g
+
+
+def _grid_1d_perm(nodes_t, origin, direction, cell_perm, node_perm):
+    """Hand-built 1-d grid on the sorted positions nodes_t / NL: cell c = [t_c, t_c+1] gets the
+    number cell_perm[c], node k gets the number node_perm[k] (faces keep the position order).
+    Returns the grid, the segment array (2, n_cells) for line_tessellation and the exact cells in
+    the new numbering."""
+    import porepy as pp
+    import scipy.sparse as sps
+
+    t = np.array(nodes_t, dtype=float) / NL
+    n = len(t)
+    o, d = np.array(origin), np.array(direction)
+    nodes = np.zeros((3, n))
+    for k in range(n):
+        nodes[:, node_perm[k]] = o + d * t[k]
+    fn = sps.csc_matrix((np.ones(n, dtype=bool), (np.array([node_perm[k] for k in range(n)]), np.arange(n))), shape=(n, n))
+    rows, cols, vals = [], [], []
+    for c in range(n - 1):
+        rows += [c, c + 1]
+        cols += [cell_perm[c], cell_perm[c]]
+        vals += [-1, 1]
+    cf = sps.csc_matrix((np.array(vals), (np.array(rows), np.array(cols))), shape=(n, n - 1))
+    g = pp.Grid(1, nodes, fn, cf, "permuted 1d grid")
+    g.compute_geometry()
+    lines = np.zeros((2, n - 1), dtype=int)
+    cells = [None] * (n - 1)
+    for c in range(n - 1):
+        lines[:, cell_perm[c]] = (node_perm[c], node_perm[c + 1])
+        cells[cell_perm[c]] = (F(nodes_t[c], NL), F(nodes_t[c + 1], NL))
+    return g, lines, cells
+
+
+def _numberings(n):
+    """Node numberings used with every cell permutation: identity, reversed, evens-then-odds."""
+    ident = list(range(n))
+    inter = [0] * n
+    for new, old in enumerate(list(range(0, n, 2)) + list(range(1, n, 2))):
+        inter[old] = new
+    return [("id", ident), ("rev", ident[::-1]), ("inter", inter)]
+
+
+def _run_line_perm(case, out: Outcome):
+    from porepy.geometry.intersections import line_tessellation
+    from porepy.grids.match_grids import match_1d
+
+    name, origin, direction, _ = LINE_EMBED[1]  # generic direction (1,2,2) with offset
+    length = float(np.linalg.norm(direction))
+    cond = 1.0 + float(np.abs(origin).max()) / (length / NL)
+    na = _nodes_1d(case["a"])
+    masks_b = [m for m in range(2 ** (NL - 1)) if bin(m).count("1") + 1 in case["bcells"]]
+
+    def variants(nodes_t):
+        nc = len(nodes_t) - 1
+        for cp in itertools.permutations(range(nc)):
+            for nname, npm in _numberings(nc + 1):
+                yield cp, nname, npm
+
+    def evaluate(A, B, tag, key):
+        (ga, la, cells_a), (gb, lb, cells_b) = A, B
+        exact = {}
+        for i, ca in enumerate(cells_a):
+            for j, cb in enumerate(cells_b):
+                ov = T.interval_overlap(ca, cb)
+                if ov > 0:
+                    exact[(i, j)] = ov
+        meas_a = [abs(c[1] - c[0]) for c in cells_a]
+        meas_b = [abs(c[1] - c[0]) for c in cells_b]
+        try:
+            got = line_tessellation(ga.nodes.copy(), gb.nodes.copy(), la, lb)
+            bad = _check_overlaps(out, "line_tessellation", got, exact, meas_a, meas_b, length, cond)
+        except Exception as e:
+            bad = f"line_tessellation raised {e!r}"
+        if bad is None:
+            fails = _check_match(out, "match_1d", match_1d, ga, gb, exact, meas_a, meas_b, cond)
+            bad = fails[0][0] if fails else None
+        if bad:
+            _viol(out, bad, "other", embedding=name, nodes_first=ga.nodes, segments_first=la, nodes_second=gb.nodes, segments_second=lb,
+                  origin=origin, direction=direction, permuted=tag)
+            out.ev("line-perm/VIOLATION", key)
+        else:
+            out.ev(f"line-perm/{tag}/" + ("multi" if len(exact) > max(len(cells_a), len(cells_b)) else "simple"), key)
+
+    ident_a = _grid_1d_perm(na, origin, direction, list(range(len(na) - 1)), list(range(len(na))))
+    for b in masks_b:
+        nb = _nodes_1d(b)
+        ident_b = _grid_1d_perm(nb, origin, direction, list(range(len(nb) - 1)), list(range(len(nb))))
+        for cp, nname, npm in variants(nb):
+            monotone = list(cp) in (sorted(cp), sorted(cp, reverse=True))
+            key = None if (monotone and nname == "id") else ("line_perm", "B", case["a"], b, cp, nname)
+            evaluate(ident_a, _grid_1d_perm(nb, origin, direction, list(cp), npm), "second/" + ("monotone" if monotone else "shuffled") + "/" + nname, key)
+        for cp, nname, npm in variants(na):
+            monotone = list(cp) in (sorted(cp), sorted(cp, reverse=True))
+            if monotone and nname == "id" and list(cp) == sorted(cp):
+                continue  # identical to the first loop's identity evaluation
+            key = ("line_perm", "A", case["a"], b, cp, nname)
+            evaluate(_grid_1d_perm(na, origin, direction, list(cp), npm), ident_b, "first/" + ("monotone" if monotone else "shuffled") + "/" + nname, key)
+    if not out.samples:
+        out.samples.append({"nodes_a": [x / NL for x in na], "partners": "all node sets with %s cells, every cell permutation x 3 node numberings" % case["bcells"]})
 
 
 def _run_line(case, out: Outcome):
@@ -340,23 +456,58 @@ def _run_tri(case, out: Outcome):
 
     if case["kind"] == "tri_pair":
         sp = SHARP_PAIRS[case["pair"]]
-        tess = [(sp[3], sp[4]), (sp[5], sp[6])]
-        case = dict(case, a=0)
+        _tri_eval(case, out, (sp[3], sp[4]), [(sp[5], sp[6])])
+    elif case["kind"] == "tri_perm":
+        tess = _tess_list(case["domain"], case["stretch"], case["max_extra"])
+        A = tess[case["a"]]
+        # the second tessellation renumbered
+        _tri_eval(case, out, A, [v for B in tess for v in _tri_variants(*B)], tag="perm-second")
+        # the first tessellation renumbered
+        for Av in _tri_variants(*A):
+            _tri_eval(case, out, Av, tess, tag="perm-first")
     else:
         tess = _tess_list(case["domain"], case["stretch"], case["max_extra"])
+        _tri_eval(case, out, tess[case["a"]], tess)
+
+
+def _tri_variants(pts, tri):
+    """Renumberings of one triangulation: triangle order (all permutations for <= 3 triangles,
+    else reversed / rotated / evens-then-odds) x node numbering (identity, reversed,
+    evens-then-odds), without the identity."""
+    nt, npnt = len(tri), len(pts)
+    if nt <= 3:
+        orders = list(itertools.permutations(range(nt)))
+    else:
+        ident = list(range(nt))
+        orders = [tuple(ident), tuple(ident[::-1]), tuple(ident[1:] + ident[:1]), tuple(ident[0::2] + ident[1::2])]
+    out = []
+    for order in orders:
+        for nname, npm in _numberings(npnt):
+            if list(order) == list(range(nt)) and nname == "id":
+                continue
+            new_pts = [None] * npnt
+            for k in range(npnt):
+                new_pts[npm[k]] = pts[k]
+            new_tri = tuple(tuple(npm[k] for k in tri[i]) for i in order)
+            out.append((tuple(new_pts), new_tri))
+    return out
+
+
+def _tri_eval(case, out: Outcome, A, partners, tag=None):
+    from porepy.geometry.intersections import surface_tessellations, triangulations
+    from porepy.grids.match_grids import match_2d
+
     plane = PLANE_EMBED[case["embed"]]
     _, o, u, v = plane
     jac = float(np.linalg.norm(np.cross(np.array(u), np.array(v))))
     cond = 1.0 + float(np.abs(o).max()) / min(float(np.linalg.norm(u)), float(np.linalg.norm(v)))
-    pts_a, tri_a = tess[case["a"]]
+    pts_a, tri_a = A
     fa = [[T._f2(pts_a[k]) for k in t] for t in tri_a]
     area_a = [T.tri_area(t) for t in fa]
     dom_area = sum(area_a)
     ga = _tri_grid(pts_a, tri_a, plane)
     cells_ga = _grid_cell_triangles(ga, pts_a)
-    for b, (pts_b, tri_b) in enumerate(tess):
-        if case["kind"] == "tri_pair" and b == 0:
-            continue
+    for b, (pts_b, tri_b) in enumerate(partners):
         fb = [[T._f2(pts_b[k]) for k in t] for t in tri_b]
         area_b = [T.tri_area(t) for t in fb]
         exact = {}
@@ -366,7 +517,7 @@ def _run_tri(case, out: Outcome):
                 if ov > 0:
                     exact[(i, j)] = ov
         nontrivial = (pts_a, tri_a) != (pts_b, tri_b) and len(exact) > max(len(fa), len(fb))
-        key = ("tri", case["domain"], case["stretch"], plane[0], case["a"], b) if nontrivial else None
+        key = ("tri", tag, case["domain"], case["stretch"], plane[0], case.get("a", case.get("pair")), pts_a[:2], tri_a[:2], b) if nontrivial else None
         bads = []
         ntouch = 0
         # (a) triangulations() on planar coordinates (only meaningful once per pair: do it for the xy embedding)
@@ -421,9 +572,9 @@ def _run_tri(case, out: Outcome):
             out.ev("tri/VIOLATION" + ("" if "other" in kinds else ":" + "+".join(sorted(kinds))), key)
         else:
             rel = "same" if (pts_a, tri_a) == (pts_b, tri_b) else "same-points" if pts_a == pts_b else "different-points"
-            out.ev(f"tri/{case['domain']}/{plane[0]}/{rel}" + ("/touch0" if ntouch else ""), key)
+            out.ev(f"tri/{case['domain']}/{plane[0]}/{tag or rel}" + ("/touch0" if ntouch else ""), key)
     if not out.samples:
-        out.samples.append({"domain": case["domain"], "points_a": list(pts_a), "triangles_a": list(tri_a), "n_partners": len(tess)})
+        out.samples.append({"domain": case["domain"], "points_a": list(pts_a), "triangles_a": list(tri_a), "n_partners": len(partners)})
 
 
 def _check_surface(surface_tessellations, fa, fb, exact, area_a, area_b, dom_area, out):
@@ -476,8 +627,10 @@ def run_case(case) -> Outcome:
     out = Outcome()
     if case["kind"] == "line":
         _run_line(case, out)
-    elif case["kind"] in ("tri", "tri_pair"):
+    elif case["kind"] in ("tri", "tri_pair", "tri_perm"):
         _run_tri(case, out)
+    elif case["kind"] == "line_perm":
+        _run_line_perm(case, out)
     else:
         raise ValueError(case["kind"])
     out.extra.pop("_cap", None)
@@ -523,7 +676,7 @@ def known_finding(case, viol):
     same mechanism (one triangle contained in the other with boundary contact, overlap reported
     as 0) yields KNOWN_GEOS_CONTAINED; it only counts if that key is registered."""
     try:
-        if not case or case.get("kind") not in ("tri", "tri_pair") or PLANE_EMBED[case["embed"]][0] not in ("n122", "skew"):
+        if not case or case.get("kind") not in ("tri", "tri_pair", "tri_perm") or PLANE_EMBED[case["embed"]][0] not in ("n122", "skew"):
             return None
         what = viol.get("what", "")
         if not what.startswith("match_2d(") or "raised" in what or "got_matrix" not in viol:
